@@ -62,7 +62,19 @@ def run_harness(ctx):
     return [norm(r) for r in rows]
 
 def compare_with_model(ctx, rows, name):
-    """returns list of (history index, first mismatching step) or None on machinery failure"""
+    """returns list of (history index, first mismatching step) or None on machinery failure.
+    Fault-injected histories (store closed, request queue full) are judged by the monitors only: the model has no store faults."""
+    all_rows = rows
+    keep = [i for i, h in enumerate(all_rows) if not h.get("faults")]
+    rows = [all_rows[i] for i in keep]
+    ctx.cov["fault_injected_histories_monitors_only"] = len(all_rows) - len(rows)
+    res = _compare_with_model(ctx, rows, name)
+    if res is None:
+        return None
+    return [(keep[i], step) for i, step in res]
+
+
+def _compare_with_model(ctx, rows, name):
     nsh = 14
     idx = sorted(range(len(rows)), key=lambda i: -weight(rows[i]))
     bins = [[] for _ in range(min(nsh, len(rows)))]
